@@ -34,6 +34,19 @@ type call struct {
 	key     string      // identity of the input for the evidence counters
 	nontriv bool        // counts under the stated rule
 	intact  func() bool // the input was not modified by the calls
+	// live (alias.go): evaluates like eval but hands over the slices themselves -- the ones golib
+	// returned, by field of the record, and the ones golib was passed -- instead of overwriting them;
+	// nil for the families that neither take nor return a slice
+	live func() (o outs, returned map[string][]byte, passed []byte)
+	// fresh builds the same input again with slices of its own
+	fresh func() call
+}
+
+// scribble overwrites a slice in place (every byte changes): what a caller that owns the slice may do
+func scribble(b []byte) {
+	for i := range b {
+		b[i] ^= 0xa5
+	}
 }
 
 // ---- the real functions, one family per constructor ----------------------------------------
@@ -42,7 +55,7 @@ func w4i(v int32) core.Bytes { return core.W4(uint32(v)) }
 
 func bytesCall(arg []byte, seed uint32, plen int) call {
 	pristine := core.Cp(arg)
-	return call{
+	c := call{
 		ev:     "Bytes",
 		fields: core.Ev{"arg": pristine, "seed": core.W4(seed), "plen": plen},
 		eval: func() outs {
@@ -79,7 +92,15 @@ func bytesCall(arg []byte, seed uint32, plen int) call {
 		key:     fmt.Sprintf("bytes:%x:%x:%d", arg, seed, plen),
 		nontriv: len(arg) > 0,
 		intact:  func() bool { return bytes.Equal(arg, pristine) },
+		fresh: func() call {
+			if arg == nil {
+				return bytesCall(nil, seed, plen)
+			}
+			return bytesCall(core.Cp(pristine), seed, plen)
+		},
 	}
+	c.live = func() (outs, map[string][]byte, []byte) { return c.eval(), nil, arg }
+	return c
 }
 
 func longCall(v uint64) call {
@@ -179,20 +200,31 @@ func bitCall(half int, hi, lo uint32, src uint64) call {
 func ipCall(a uint32) call {
 	addr := []byte{byte(a >> 24), byte(a >> 16), byte(a >> 8), byte(a)}
 	pristine := core.Cp(addr)
+	// every slice golib returns is the caller's: after projecting it the harness overwrites it
+	// (keep: hands it over untouched instead)
+	do := func(keep bool) (outs, map[string][]byte) {
+		text := iputil.ToString(addr)
+		n := iputil.ToInt(addr)
+		p := iputil.ToBytes(text)
+		f := iputil.ToBytesFrInt(n)
+		o := outs{
+			"text":      core.Str(text),
+			"textint":   core.Str(iputil.ToStringInt(int32(a))),
+			"textfrint": core.Str(iputil.ToStringFrInt(int32(a))),
+			"parsed":    core.Cp(p),
+			"int":       w4i(n),
+			"frint":     core.Cp(f),
+		}
+		if keep {
+			return o, map[string][]byte{"parsed": p, "frint": f}
+		}
+		scribble(p)
+		scribble(f)
+		return o, nil
+	}
 	return call{
 		ev: "Ip", fields: core.Ev{"a": pristine},
-		eval: func() outs {
-			text := iputil.ToString(addr)
-			n := iputil.ToInt(addr)
-			return outs{
-				"text":      core.Str(text),
-				"textint":   core.Str(iputil.ToStringInt(int32(a))),
-				"textfrint": core.Str(iputil.ToStringFrInt(int32(a))),
-				"parsed":    core.Cp(iputil.ToBytes(text)),
-				"int":       w4i(n),
-				"frint":     core.Cp(iputil.ToBytesFrInt(n)),
-			}
-		},
+		eval: func() outs { o, _ := do(false); return o },
 		ref: func() outs {
 			t := refIpText(pristine)
 			return outs{"text": core.Cp(t), "textint": core.Cp(t), "textfrint": core.Cp(t),
@@ -200,15 +232,28 @@ func ipCall(a uint32) call {
 		},
 		key: fmt.Sprintf("ip:%x", a), nontriv: true,
 		intact: func() bool { return bytes.Equal(addr, pristine) },
+		live:   func() (outs, map[string][]byte, []byte) { o, h := do(true); return o, h, addr },
+		fresh:  func() call { return ipCall(a) },
 	}
 }
 
 func ipParseCall(text string) call {
+	do := func(keep bool) (outs, map[string][]byte) {
+		p := iputil.ToBytes(text)
+		o := outs{"parsed": core.Cp(p)}
+		if keep {
+			return o, map[string][]byte{"parsed": p}
+		}
+		scribble(p)
+		return o, nil
+	}
 	return call{
 		ev: "IpParse", fields: core.Ev{"t": core.Str(text)},
-		eval: func() outs { return outs{"parsed": core.Cp(iputil.ToBytes(text))} },
+		eval: func() outs { o, _ := do(false); return o },
 		ref:  func() outs { return outs{"parsed": core.Cp(refIpParse([]byte(text)))} },
 		key:  "ipparse:" + text, nontriv: true,
+		live:  func() (outs, map[string][]byte, []byte) { o, h := do(true); return o, h, nil },
+		fresh: func() call { return ipParseCall(text) },
 	}
 }
 
@@ -571,7 +616,7 @@ func genIp(c *core.Ctx) []call {
 
 // Run is the driver.
 func Run(c *core.Ctx) error {
-	c.Rule = "one evaluation = one input of one function family pushed through every golib entry point of the family (4 times: twice sequentially, twice from concurrent goroutines); distinct counts distinct (family, input) pairs; non-trivial = non-empty byte string / non-zero word / number outside 0..9 / any pair of halves / any address"
+	c.Rule = "one evaluation = one input of one function family pushed through every golib entry point of the family (4 times: twice sequentially, twice from concurrent goroutines; gen conc: once per goroutine and round; gen alias/churn: once per visit); distinct counts distinct (family, input) pairs; non-trivial = non-empty byte string / non-zero word / number outside 0..9 / any pair of halves / any address"
 	shards := func(name string, n int) []*core.Trace {
 		ts := make([]*core.Trace, n)
 		for i := range ts {
@@ -583,7 +628,22 @@ func Run(c *core.Ctx) error {
 	tRand := shards("rand", c.Pick(3, 6))
 	tIds := shards("ids", c.Pick(2, 4))
 	tSweep := shards("sweep", 1)
+	tAlias := shards("alias", c.Pick(1, 2))
+	tChurn := shards("churn", c.Pick(1, 2))
+	nConc := c.Pick(2, 6)
+	tConc := shards("conc", nConc)
+	nAlias := c.Pick(6, 24)
 
+	// state carried across calls / aliasing: the first half of the cases in a process that has not
+	// evaluated anything yet, the second half at the very end (every cache warm or full)
+	alias := func(lo, hi int) {
+		for cas := lo; cas < hi; cas++ {
+			if c.Want("alias", cas) {
+				runAlias(c, tAlias[cas%len(tAlias)], "alias", cas, aliasInputs(c, "alias", cas))
+			}
+		}
+	}
+	alias(0, nAlias/2)
 	if c.WantGen("short") {
 		histories(c, tShort, "short", genShort(c), 64, false)
 	}
@@ -602,8 +662,20 @@ func Run(c *core.Ctx) error {
 	if c.WantGen("ip") {
 		histories(c, tIds, "ip", genIp(c), 64, false)
 	}
+	for cas := 0; cas < nConc; cas++ {
+		if c.Want("conc", cas) {
+			runConc(c, tConc[cas], "conc", cas, concInputs(c, "conc", cas), c.Pick(100, 150))
+		}
+	}
+	// quick: one of the two cases (by the seed), thorough: both
+	for cas := 0; cas < 2; cas++ {
+		if (c.Thorough() || int(c.Seed&1) == cas) && c.Want("churn", cas) {
+			runChurn(c, tChurn[cas%len(tChurn)], "churn", cas, c.Pick(2200, 6000))
+		}
+	}
 	if c.OnlyGen == "" || c.OnlyGen == "sweepref" || c.OnlyGen == "sweepfail" {
 		runSweep(c, tSweep[0])
 	}
+	alias(nAlias/2, nAlias)
 	return nil
 }
